@@ -100,6 +100,7 @@ Proof.
     + assert (G : c_map s1 = c_map s /\ (nb_of (c_pc s1) = nb_of (c_pc s) \/ nb_of (c_pc s1) = None)).
       { destruct sr; [destruct F as [_ [_ [_ [Hmap [Hn _]]]]]; tauto
                      | destruct F as [_ [_ [_ [_ [Hmap [Hn _]]]]]]; split; [assumption | left; assumption]
+                     | destruct F as [_ [_ [_ [Hmap [Hn _]]]]]; tauto
                      | destruct F as [_ [_ [_ [Hmap [Hn _]]]]]; tauto]. }
       destruct G as [Hmap Hn].
       apply (IH s1 s'); [| exact HR]. split; [congruence |].
@@ -253,6 +254,8 @@ Proof.
         -- simpl in HP. apply Permutation_sym in HP. apply Permutation_nil in HP. discriminate.
       * destruct F as [Hq [Hn' [Hc' _]]].
         apply (IH s1 s'); [exact QI1 | | exact HR]. split; [| split]; congruence.
+      * destruct F as [Hq [Hn' [Hc' _]]].
+        apply (IH s1 s'); [exact QI1 | | exact HR]. split; [| split]; congruence.
     + destruct F as [h [q' [Hq [Hq' [Hk [Ht [Hn' [Hc' _]]]]]]]].
       rewrite Hq in *.
       destruct (rel_pop l h q' S N HP) as [Hf [_ Hrem]].
@@ -311,6 +314,7 @@ Proof.
     + assert (Hp : popt_of (c_pc s1) = popt_of (c_pc s)).
       { destruct sr; [destruct F as [_ [_ [_ [_ [_ Hp]]]]]; exact Hp
                      | destruct F as [_ [_ [_ [_ [_ [_ Hp]]]]]]; exact Hp
+                     | destruct F as [_ [_ [_ [_ [_ Hp]]]]]; exact Hp
                      | destruct F as [_ [_ [_ [_ [_ Hp]]]]]; exact Hp]. }
       apply (IH s1 s'); [| exact HR]. intros t0 H0. apply Hpt. congruence.
     + destruct F as [h [q' [_ [_ [_ [_ [_ [_ [_ [_ Hp]]]]]]]]]].
